@@ -33,12 +33,15 @@ REDUCTION = {
 }
 
 
+ARGS_NAME = ["args"]
+
+
 def arm_parts(arm):
     """(nums init term, [value terms after it], error guards) of an aggregate arm"""
     blk = H.strip(arm["body"])
     if H.kind(blk) != "Block":
         return None
-    env = S.Env(roles={"args": ARGS})
+    env = S.Env(roles={ARGS_NAME[0]: ARGS})
     nums_init = None
     e2 = env.child()
     rest = []
@@ -73,6 +76,7 @@ def run(ctx):
     S.INLINE = S.default_inline(core)
     ctx.not_decided += ["the numerical laws themselves (rounding, permutation invariance up to rounding, monotonicity of percentile): runtime quantities", "that f64::min/max/sum behave as documented (std)"]
     f = core.hir_fn(BCALL)
+    ARGS_NAME[0] = H.param_by_type(f, "Vec<blots_core::values::Value>", "args")
     m = H.matches_on(f["body"], "functions::BuiltInFunction")[0]
     arms = {}
     for a in m["arms"]:
@@ -122,7 +126,7 @@ def run(ctx):
     pa = arms.get("Percentile")
     if pa is None:
         raise CheckerError("no Percentile arm")
-    env = S.Env(roles={"args": ARGS})
+    env = S.Env(roles={ARGS_NAME[0]: ARGS})
     out = []
     blk = H.strip(pa["body"])
     e2 = env.child()
